@@ -78,6 +78,18 @@ def one (cmd : String) (a : V) : Option String := do
     | .ok r => pure (ok [V.ofCps r])
     | .error e => pure (ok [encErr e])
   | "fmtts" => pure (ok [V.ofCps (formatTimestamp (← a.nat?))])
+  | "fmttuple" =>
+    match ← (← a.list?).mapM V.nat? with
+    | [y, mo, d, h, mi, s] => pure (ok [V.ofCps (formatTimestampTuple y mo d h mi s)])
+    | _ => none
+  | "fmtdt" =>
+    match ← a.list? with
+    | [y, mo, d, h, mi, s, o] =>
+      let off ← if o.isNone then pure none else (do pure (some (← o.int?)))
+      match formatTimestampDT { y := ← y.nat?, mo := ← mo.nat?, d := ← d.nat?, h := ← h.nat?, mi := ← mi.nat?, s := ← s.nat?, off := off } with
+      | .ok r => pure (ok [V.ofCps r])
+      | .error e => pure (ok [encErr e])
+    | _ => none
   | "parsedate" => pure (ok [V.ofOpt V.ofNat (parseHttpDate (← a.cps?))])
   | "parseqsl" => pure (ok [encPairs (parseQsl (← a.cps?))])
   | "urlencode" => pure (ok [V.ofCps (urlencode (← decPairs a))])
